@@ -257,6 +257,24 @@ Theorem C19_trunc32_fallback_unreachable : forall s, take (u32 (len s)) s <> Non
 Proof. exact trunc32_take_total. Qed.
 Print Assumptions C19_trunc32_fallback_unreachable.
 
+(* ---- delivery to subscribers (marbl.Handler) ---------------------- *)
+
+(* What one subscriber received, against the complete stream: per (id, type)
+   a gap-free run of that message's frames. *)
+Theorem C19_subscriber_oracle_is_the_property : forall ref got,
+  c19_subscriber_ok ref got = true <->
+  forall k, In k (map fkey got) ->
+    exists pre post, filter (keyb k) ref = pre ++ filter (keyb k) got ++ post.
+Proof. exact c19_subscriber_ok_iff. Qed.
+Print Assumptions C19_subscriber_oracle_is_the_property.
+
+(* A subscriber that joined late and/or was cut off, but received every frame
+   in between, is accepted (so a cut-off is never reported as a hole). *)
+Theorem C19_contiguous_delivery_accepted : forall pre got post,
+  c19_subscriber_ok (pre ++ got ++ post) got = true.
+Proof. intros. apply c19_subscriber_ok_iff. apply contiguous_part_ok. Qed.
+Print Assumptions C19_contiguous_delivery_accepted.
+
 (* ---- non-vacuity -------------------------------------------------- *)
 
 Local Open Scope string_scope.
@@ -356,4 +374,16 @@ Example C19_example_oracle_parts :
   /\ ts_okb 1700000000000 1700000000200 (s "1700000000123") = true
   /\ ts_okb 1700000000000 1700000000200 (s "1700000000201") = false
   /\ ts_okb 0 10 (s "") = false /\ ts_okb 0 10 (s "+5") = false.
+Proof. vm_compute. repeat split; reflexivity. Qed.
+
+(* a subscriber with a hole in a body is rejected; prefix / late joiner are accepted *)
+Example C19_example_subscriber :
+  let b := body_log ex_id1 mt_request [(s "a", RNil); (s "b", RNil); (s "c", RNil); (s "d", REof)] in
+  let other := body_log ex_id2 mt_request [(s "x", REof)] in
+  let ref := List.app (firstn 2 b) (List.app other (skipn 2 b)) in
+  c19_subscriber_ok ref (firstn 3 ref) = true
+  /\ c19_subscriber_ok ref (skipn 1 ref) = true
+  /\ c19_subscriber_ok ref [] = true
+  /\ c19_subscriber_ok ref (List.app (firstn 1 b) (skipn 3 b)) = false
+  /\ c19_subscriber_ok ref (List.app other (List.app (firstn 2 b) (skipn 3 b))) = false.
 Proof. vm_compute. repeat split; reflexivity. Qed.
